@@ -26,12 +26,15 @@ def main() -> int:
 
     data = json.loads(open(sys.argv[1]).read())
     mod = importlib.import_module(data["module"])
+    run_root = core.begin_run() if not os.environ.get("VERIF_SCRATCH") else None
     try:
         if hasattr(mod, "setup_worker"):
             mod.setup_worker()
         r = getattr(mod, data["evaluate"])(data["case"])
     finally:
         core.cleanup_scratch()
+        if run_root is not None:
+            core.end_run(run_root)
     print("case:", core.canon(data["case"])[:2000])
     for v in r.viol:
         print("violation:", v["signature"], "--", v["message"][:2000])
